@@ -195,7 +195,7 @@ func HarnessC12HostOSMediatesEverything() {
 	got, found := ros.GetOS(ctx)
 	verifrt.Assert(found && got == ros.OS(rec), "context-carries-the-host-os")
 	e := c12Entries[verifrt.Choose(len(c12Entries))]
-	rec.calls, rec.args = nil, nil
+	rec.calls, rec.args, rec.argv = nil, nil, nil
 	args := e.args()
 	res := e.fn(ctx, args...)
 	_ = res
@@ -210,16 +210,16 @@ func HarnessC12HostOSMediatesEverything() {
 	}
 	// the host OS is handed exactly the script's arguments
 	for _, spec := range c12ArgMethods[e.name] {
-		want := spec.method + ":"
-		for k, i := range spec.idx {
-			if k > 0 {
-				want += "|"
-			}
-			if sv, ok := args[i].(*object.String); ok {
-				want += sv.Value()
+		var wantArgs []string
+		for _, i := range spec.idx {
+			sv, _ := args[i].(*object.String)
+			if sv != nil {
+				wantArgs = append(wantArgs, sv.Value())
+			} else {
+				wantArgs = append(wantArgs, "")
 			}
 		}
-		verifrt.Assert(rec.got(want), e.name+":host-os-"+spec.method+"-receives-the-script-arguments")
+		verifrt.Assert(rec.gotPaths(spec.method, wantArgs), e.name+":host-os-"+spec.method+"-receives-the-script-arguments")
 	}
 }
 
